@@ -150,10 +150,10 @@ def signed_int_to_bytes(bytes):
 
 def define_blockshape_2d(bits_per_voxel, blockshape):
     assert blockshape[0] == 1
-    return define_blockshape_3d(bits_per_voxel, blockshape)
+    return define_blockshape_3d(bits_per_voxel, blockshape, is_2d=True)
 
 
-def define_blockshape_3d(bits_per_voxel, blockshape):
+def define_blockshape_3d(bits_per_voxel, blockshape, is_2d=False):
     if sum([1 for n in list(blockshape) + [bits_per_voxel] if n == -1]) > 1:
         raise ValueError("Blockshape is underdefined")
 
@@ -177,7 +177,7 @@ def define_blockshape_3d(bits_per_voxel, blockshape):
     # Whichever value was derived, one block must fill exactly one disk block with a layout ZFP and the reader support
     assert(bits_per_voxel * blockshape[0] * blockshape[1] * blockshape[2] == DISK_BLOCK_BYTES * 8)
     assert all(n >= 4 and n & (n - 1) == 0 for n in blockshape[1:]) and \
-        (blockshape[0] == 1 or (blockshape[0] >= 4 and blockshape[0] & (blockshape[0] - 1) == 0))
+        ((is_2d and blockshape[0] == 1) or (blockshape[0] >= 4 and blockshape[0] & (blockshape[0] - 1) == 0))
     return bits_per_voxel, blockshape
 
 
